@@ -27,6 +27,13 @@ var _ statedb.Keeper = &Keeper{}
 func (k *Keeper) GetAccount(ctx sdk.Context, addr common.Address) *statedb.Account {
 	acct := k.GetAccountWithoutBalance(ctx, addr)
 	if acct == nil {
+		// an address can hold coins without an auth account (e.g. a balance of the bank genesis): for the
+		// EVM it exists, with that balance - otherwise the first write would "reconcile" the bank to zero.
+		if balance := k.GetBalance(ctx, addr); balance.Sign() > 0 {
+			acct = statedb.NewEmptyAccount()
+			acct.Balance = balance
+			return acct
+		}
 		return nil
 	}
 
